@@ -13,6 +13,14 @@ CLAIMED = {
    technique="TLA+ spec of the reverse log (Xeh.tla primitives, RNext), TLC over all Fwd/Back interleavings; recorded stepping traces of the real crate validated by TLC against Trace_ReverseObs",
    text="TLC explores every interleaving of forward and backward steps of every generated program on the implementation-shaped design of the reverse log and checks that the machine state at a position is always the one first recorded there. The same programs plus seeded programs over the whole dictionary are stepped on the real crate under three schedules; TLC validates the recorded traces against an observational trace specification (k steps back = the state k steps earlier; replay reproduces). A corrupted event is shown to be rejected on every thorough run.",
    note="Trusts the dump hook to render every component the property lists; a failed forward step is not a step (DESIGN 5.19); meter and stdout are outside the reversible state."),
+ "C14": dict(cat="model_checking", design="5/C14",
+   technique="TLA+ spec of the limits in the VM (Xeh.tla), TLC stepping every program under every limit triple with invariants after each instruction; replay of each pair on the real crate; recorded step traces validated by TLC against Trace_Limits",
+   text="TLC steps every generated program one instruction per action under 15 limit triples and checks meter<=N, stack<=S, heap<=H in every state, that a Limit error only occurs at a limit, and that a run resumed after raising the instruction limit ends like an unlimited run. Each (program, limits) pair is replayed on the real crate in run mode (state at the limit error must be a state of the first N instructions of the design's trail) and in step mode with recovery; seeded whole-dictionary and flooding programs with limits changed between evaluations are recorded step by step and validated by a trace specification that keeps its own instruction count.",
+   note="Atomicity of the exceeding operation is not demanded; a limit lowered below the current size only bounds growth; trusts the dump hook for stack/heap lengths."),
+ "C15": dict(cat="model_checking", design="5/C15",
+   technique="TLA+ spec of the three drive modes x recording (Xeh.tla Submit/Run/Step), TLC on all generated programs; replay in six modes against the structural reference; six-mode twin traces validated by TLC (Trace_TwinObs)",
+   text="TLC checks on the design that eval, compile+run and compile+step, each with recording off and on, end in the same observable state for every generated program, and exports the reference's prediction; the real crate is run in all six modes on every enumerated program (must match the prediction) and on seeded whole-dictionary programs (the six observations - rendered result, visible stack, all variables and heap cells, stdout - must be equal; validated by the twin-run trace specification).",
+   note="Panics are treated as an observation (C08 judges them); the instruction limit is set identically before each mode."),
 }
 
 PENDING_REASON = "check not built yet in this build session (planned, DESIGN.md section 12); no claim is made for it"
